@@ -2402,6 +2402,10 @@ func (p *Parser) gotStmtPipe(s *Stmt, binCmd bool) *Stmt {
 func (p *Parser) subshell(s *Stmt) {
 	sub := &Subshell{Lparen: p.pos}
 	old := p.preNested(subCmd)
+	// Unlike a command substitution, a subshell is part of the same line:
+	// the body of a pending heredoc follows the first newline inside of it,
+	// such as in "cat <<EOF | (\nbody\nEOF\n tr a-z A-Z)".
+	p.buriedHdocs = old.buriedHdocs
 	p.next()
 	sub.Stmts, sub.Last = p.followStmts("(", sub.Lparen)
 	p.postNested(old)
@@ -2615,6 +2619,8 @@ func (p *Parser) caseItems(stop string) (items []*CaseItem) {
 			}
 		}
 		old := p.preNested(switchCase)
+		// Like in a subshell, a pending heredoc's body follows the first newline.
+		p.buriedHdocs = old.buriedHdocs
 		p.next()
 		ci.Stmts, ci.Last = p.stmtList(stop)
 		p.postNested(old)
